@@ -12,7 +12,7 @@ workspace/applyEdit, workspace/didCreateFiles -> workspace/applyEdit); the retur
 to the text the CLIENT holds and compared with what the server intends (formatter / fix / template
 oracle, and the server's own copy afterwards); Model/FormatFlow.v (which (before, after) each flow
 hands to ComputeEdits) is compared with the answers, class for class and edit list for edit list."""
-import glob, json, os, re, subprocess, time
+import glob, json, os, re, subprocess, threading, time
 import vlib
 from common import proof_gate, proof_coverage
 
@@ -213,6 +213,75 @@ def gen_cases(ctx):
     return cases
 
 
+# ------------------------------------------------------------------ call orders (history independence)
+
+def polluters():
+    """pairs with a long common prefix and one edit at the very end (of several sizes): what such a diff leaves behind -- in a
+    buffer, a pool, a cache -- is the furthest state from what a fresh diff starts with"""
+    out = []
+    for n in (1, 2, 4, 9, 30):
+        pre = b''.join(b'common line %d\n' % i for i in range(n))
+        out.append((pre + b'old\n', pre + b'new\n'))
+        out.append((pre, pre + b'added\n'))
+        out.append((pre + b'gone\n', pre))
+    return out
+
+
+def make_plan(ctx, cases):
+    """the call orders every case is evaluated in, besides the forward order (one PRNG: ctx.rng).  Large cases take part in the
+    reverse order only."""
+    rng = ctx.rng
+    ids = [c['id'] for c in cases]
+    small = [c['id'] for c in cases if c['kind'] != 'large']
+    pol = polluters()
+
+    def shuffled(xs):
+        xs = list(xs)
+        for i in range(len(xs) - 1, 0, -1):
+            j = rng.below(i + 1)
+            xs[i], xs[j] = xs[j], xs[i]
+        return xs
+    after_pol = []
+    for k, i in enumerate(small):
+        after_pol += [-(1 + (k % len(pol))), i]
+    twice = []
+    for i in shuffled(small):
+        twice += [i, i]
+    runs = [{'name': 'reverse', 'goroutines': 1, 'order': ids[::-1]},
+            {'name': 'after-polluter', 'goroutines': 1, 'order': after_pol},
+            {'name': 'shuffled', 'goroutines': 1, 'order': shuffled(small)},
+            {'name': 'twice-in-a-row', 'goroutines': 1, 'order': twice},
+            {'name': 'concurrent', 'goroutines': 8, 'order': shuffled(small) + shuffled(small)}]
+    return {'runs': runs, 'polluters': [{'id': -1 - k, 'mode': 'pair', 'before': hx(b), 'after': hx(a)} for k, (b, a) in enumerate(pol)]}
+
+
+def entry_pair(plan, by_id, e):
+    """the (before, after) of a plan entry"""
+    if e < 0:
+        p = plan['polluters'][-e - 1]
+        return bytes.fromhex(p['before']), bytes.fromhex(p['after'])
+    c = by_id[e]
+    return bytes.fromhex(c['before']), bytes.fromhex(c['after'])
+
+
+def rec_key(o):
+    """what two evaluations of one pair must agree in"""
+    return json.dumps([o.get('panic'), o.get('edits'), o.get('applied'), o.get('applerr')])
+
+
+def seq_deviates(recs_seq, recs_alone):
+    """the last call of a sequence against the same pair evaluated as the first call after the pools were emptied"""
+    if recs_seq is None:
+        return 'the process died during the sequence'
+    last = recs_seq[-1]
+    why = go_bad(last)
+    if why:
+        return why
+    if recs_alone is not None and rec_key(last) != rec_key(recs_alone[-1]):
+        return 'the edit list differs from the one the same pair gets as the first call of a process'
+    return None
+
+
 # ------------------------------------------------------------------ running the implementation
 
 OVERLAY = {
@@ -221,47 +290,183 @@ OVERLAY = {
 }
 
 
-def run_go(ctx, cases, tag='main', srv_cases=None):
-    """runs the overlay tests: the pairs through ComputeEdits (TestVerifC16) and, when given, the server-level
-    cases through real language servers (TestVerifC16Server, in parallel inside the same test binary).
-    Returns the pair results by id; with srv_cases: (pair results, server results by id)"""
-    inp = os.path.join(ctx.tmp, 'c16_in_%s.jsonl' % tag)
-    outp = os.path.join(ctx.tmp, 'c16_out_%s.jsonl' % tag)
+def build_test_binary(ctx):
+    """the overlay tests of package lsp compiled ONCE into a test binary (go test -c -overlay): the pair test and the server test
+    then run as separate processes (a crash of one cannot hide the results of the other), and replays / minimisation re-run the
+    binary without linking again"""
+    path = getattr(ctx, '_c16_bin', None)
+    if path:
+        return path
+    ov = {'Replace': {os.path.join(vlib.REPO, k): v for k, v in OVERLAY.items()}}
+    ovp = os.path.join(ctx.tmp, 'overlay_c16.json')
+    json.dump(ov, open(ovp, 'w'))
+    path = os.path.join(ctx.tmp, 'c16.test')
+    rc, log = vlib.run([vlib.GO, 'test', '-c', '-overlay', ovp, '-vet=off', '-o', path, './internal/lsp'],
+                       cwd=vlib.REPO, env=vlib.goenv(), timeout=900)
+    if rc != 0 or not os.path.exists(path):
+        raise vlib.HarnessBuildError(log)
+    ctx._c16_bin = path
+    return path
+
+
+def run_bin(ctx, pattern, env_extra, timeout=1500):
+    env = vlib.goenv()
+    env.update(env_extra)
+    return vlib.run([build_test_binary(ctx), '-test.run', pattern, '-test.count=1', '-test.timeout', '%ds' % timeout],
+                    cwd=os.path.join(vlib.REPO, 'internal', 'lsp'), env=env, timeout=timeout + 120)
+
+
+def last_line(path):
+    try:
+        ls = open(path).read().splitlines()
+    except OSError:
+        return None
+    return ls[-1] if ls else None
+
+
+def run_pairs(ctx, cases, tag, plan=None):
+    """the pair test in its own process.  A panic inside ComputeEdits is recovered per evaluation by the harness; should the process
+    die all the same (fatal error, time-out), the evaluation in flight is read from the journal, that case is recorded as a crash
+    and the others are run again without it.  Returns results by id."""
+    res, crashed = {}, {}
+    todo = list(cases)
+    for attempt in range(4):
+        inp = os.path.join(ctx.tmp, 'c16_in_%s_%d.jsonl' % (tag, attempt))
+        outp = os.path.join(ctx.tmp, 'c16_out_%s_%d.jsonl' % (tag, attempt))
+        jp = os.path.join(ctx.tmp, 'c16_journal_%s_%d.txt' % (tag, attempt))
+        with open(inp, 'w') as f:
+            for c in todo:
+                f.write(json.dumps({'id': c['id'], 'mode': c['mode'], 'before': c['before'], 'after': c['after']}) + '\n')
+        env = {'VERIF_C16_IN': inp, 'VERIF_C16_OUT': outp, 'VERIF_C16_JOURNAL': jp}
+        if plan is not None:
+            # plan entries index the position in `todo`
+            pos = {c['id']: k for k, c in enumerate(todo)}
+            pl = {'polluters': plan['polluters'],
+                  'runs': [{'name': r['name'], 'goroutines': r['goroutines'],
+                            'order': [(e if e < 0 else pos[e]) for e in r['order'] if e < 0 or e in pos]} for r in plan['runs']]}
+            pp = os.path.join(ctx.tmp, 'c16_plan_%s_%d.json' % (tag, attempt))
+            json.dump(pl, open(pp, 'w'))
+            env['VERIF_C16_PLAN'] = pp
+        rc, log = run_bin(ctx, '^TestVerifC16$', env)
+        if rc == 0:
+            for l in open(outp):
+                o = json.loads(l)
+                res[o['id']] = o
+            break
+        # the process died: which evaluation was in flight?
+        jl = last_line(jp)
+        culprit = None
+        if jl:
+            parts = jl.split()
+            if parts[0] == 'forward':
+                culprit = int(parts[2])
+            elif len(parts) == 3 and int(parts[2]) >= 0:
+                culprit = todo[int(parts[2])]['id']
+        if culprit is None or attempt == 3:
+            raise RuntimeError('c16 pair test died and the evaluation in flight cannot be told (journal: %r):\n%s' % (jl, log[-3000:]))
+        crashed[culprit] = {'id': culprit, 'crash': 'the test process died during this evaluation (%s): %s' % (jl, log[-1500:]),
+                            'edits': [], 'applied': False, 'sorted': True, 'disjoint': True, 'indoc': True, 'strict': True, 'char0': True,
+                            'nlines': 0, 'journal': jl}
+        todo = [c for c in todo if c['id'] != culprit]
+    res.update(crashed)
+    return res
+
+
+def run_seqs(ctx, seqs, tag):
+    """replay mode of the pair test: every element of seqs is a SEQUENCE of (before, after) pairs, evaluated in order in one
+    process (on one OS thread, no garbage collection inside a sequence, pools emptied between sequences).  Returns, per sequence,
+    the list of records (None when the process died during it)."""
+    inp = os.path.join(ctx.tmp, 'c16_seq_in_%s.jsonl' % tag)
+    outp = os.path.join(ctx.tmp, 'c16_seq_out_%s.jsonl' % tag)
     with open(inp, 'w') as f:
-        for c in cases:
-            f.write(json.dumps({'id': c['id'], 'mode': c['mode'], 'before': c['before'], 'after': c['after']}) + '\n')
-    env = {'VERIF_C16_IN': inp, 'VERIF_C16_OUT': outp}
-    pat = '^TestVerifC16$'
-    if srv_cases is not None:
-        sinp = os.path.join(ctx.tmp, 'c16_srv_in_%s.jsonl' % tag)
-        soutp = os.path.join(ctx.tmp, 'c16_srv_out_%s.jsonl' % tag)
+        for k, sq in enumerate(seqs):
+            f.write(json.dumps({'id': k, 'seq': [{'id': n, 'mode': 'pair', 'before': hx(b), 'after': hx(a)} for n, (b, a) in enumerate(sq)]}) + '\n')
+    rc, log = run_bin(ctx, '^TestVerifC16$', {'VERIF_C16_IN': inp, 'VERIF_C16_OUT': outp, 'VERIF_C16_SEQ': '1',
+                                               'VERIF_C16_JOURNAL': os.path.join(ctx.tmp, 'c16_seq_journal_%s.txt' % tag)})
+    out = [None] * len(seqs)
+    try:
+        for l in open(outp):
+            o = json.loads(l)
+            out[o['id']] = o['recs']
+    except (OSError, ValueError):
+        pass
+    if rc != 0 and all(x is not None for x in out):
+        raise RuntimeError('c16 sequence test failed:\n' + log[-3000:])
+    return out
+
+
+def run_servers(ctx, srv_cases, tag):
+    """the server test in its own process; results by id plus the list of cases that were in flight when a process died"""
+    sres, died = {}, []
+    todo = list(srv_cases)
+    for attempt in range(3):
+        if not todo:
+            break
+        sinp = os.path.join(ctx.tmp, 'c16_srv_in_%s_%d.jsonl' % (tag, attempt))
+        soutp = os.path.join(ctx.tmp, 'c16_srv_out_%s_%d.jsonl' % (tag, attempt))
+        jp = os.path.join(ctx.tmp, 'c16_srv_journal_%s_%d.txt' % (tag, attempt))
         with open(sinp, 'w') as f:
-            for c in srv_cases:
+            for c in todo:
                 f.write(json.dumps(c) + '\n')
-        env.update({'VERIF_C16_SRV_IN': sinp, 'VERIF_C16_SRV_OUT': soutp,
-                    'VERIF_C16_SRV_WS': os.path.join(ctx.tmp, 'c16_ws_%s' % tag)})
-        pat = '^TestVerifC16(Server)?$'
-    rc, log = vlib.go_test_overlay(ctx, './internal/lsp', OVERLAY, pat, env_extra=env, timeout=1500)
-    if rc != 0:
-        if 'build failed' in log or 'cannot' in log and '.go:' in log:
-            raise vlib.HarnessBuildError(log)
-        raise RuntimeError('c16 overlay test failed:\n' + log[-3000:])
-    res = {}
-    for l in open(outp):
-        o = json.loads(l)
-        res[o['id']] = o
+        rc, log = run_bin(ctx, '^TestVerifC16Server$', {'VERIF_C16_SRV_IN': sinp, 'VERIF_C16_SRV_OUT': soutp, 'VERIF_C16_SRV_JOURNAL': jp,
+                                                         'VERIF_C16_SRV_WS': os.path.join(ctx.tmp, 'c16_ws_%s_%d' % (tag, attempt))})
+        got = {}
+        try:
+            for l in open(soutp):
+                try:
+                    o = json.loads(l)
+                except ValueError:
+                    continue
+                got[o['id']] = o
+        except OSError:
+            pass
+        sres.update(got)
+        if rc == 0:
+            break
+        started = set()
+        try:
+            started = {int(x) for x in open(jp).read().split()}
+        except (OSError, ValueError):
+            pass
+        inflight = [c for c in todo if c['id'] in started and c['id'] not in got]
+        if not inflight:
+            raise RuntimeError('c16 server test failed:\n' + log[-3000:])
+        for c in inflight:
+            prefix = [x for x in todo if x['profile'] == c['profile'] and (x['id'] in got or x['id'] == c['id'])]
+            died.append({'case': c, 'sequence': prefix, 'log': log[-2500:]})
+        gone = {c['id'] for c in inflight}
+        todo = [c for c in todo if c['id'] not in got and c['id'] not in gone]
+    return sres, died
+
+
+def run_go(ctx, cases, tag='main', srv_cases=None, plan=None, want_died=False):
+    """runs the overlay tests: the pairs through ComputeEdits (TestVerifC16) and, when given, the server-level cases through real
+    language servers (TestVerifC16Server) -- two processes of one test binary, side by side.
+    Returns the pair results by id; with srv_cases: (pair results, server results by id[, died])"""
+    build_test_binary(ctx)
     if srv_cases is None:
-        return res
-    sres = {}
-    for l in open(soutp):
-        o = json.loads(l)
-        sres[o['id']] = o
-    for c in srv_cases:
-        o = sres.get(c['id'])
-        if o is None:
-            raise RuntimeError('no output for server case %d' % c['id'])
-        if o.get('fatal'):
-            raise RuntimeError('c16 server harness stopped at case %d (%s): %s' % (c['id'], json.dumps(c), o['fatal']))
+        return run_pairs(ctx, cases, tag, plan)
+    box = {}
+
+    def srv():
+        try:
+            box['srv'] = run_servers(ctx, srv_cases, tag)
+        except BaseException as e:      # re-raised in the caller's thread
+            box['err'] = e
+    th = threading.Thread(target=srv)
+    th.start()
+    try:
+        res = run_pairs(ctx, cases, tag, plan) if cases else {}
+    finally:
+        th.join()
+    if 'err' in box:
+        raise box['err']
+    sres, died = box['srv']
+    missing = [c['id'] for c in srv_cases if c['id'] not in sres and not any(d['case']['id'] == c['id'] for d in died)]
+    if missing and not died:
+        raise RuntimeError('no output for server case %d' % missing[0])
+    if want_died:
+        return res, sres, died
     return res, sres
 
 
@@ -269,6 +474,8 @@ def go_bad(o):
     """the property predicate on the implementation's own output; returns a reason or None"""
     if o.get('skip'):
         return None
+    if o.get('crash'):
+        return o['crash'][:400]
     if o.get('panic'):
         return 'panic: ' + o['panic']
     if not o['applied']:
@@ -334,6 +541,28 @@ def shard_text(items):
     v.append('Definition R4 := Eval vm_compute in map (fun c => Z.to_nat (case_rounds c + 1)) cases.')
     v.append('Print R1. Print R2. Print R3. Print R4.')
     return vlib.CASE_HEADER + '\n'.join(v) + '\n'
+
+
+def coq_seq_disagreements(ctx, sq, recs, tag):
+    """Check.C16Check.seq_disagreements on one observed sequence of calls: the positions whose observed edit list is not the
+    model's (a call that panicked has no edit list: it is listed without asking Coq)"""
+    it = Interner()
+    rows, pan = [], []
+    for k, ((b, a), r) in enumerate(zip(sq, recs)):
+        if r.get('panic') or r.get('crash'):
+            pan.append(k)
+            r = dict(r, edits=[])
+        es = '[%s]' % ';'.join('(%s,%s,%s,%s,%s)' % (zlit(e[0]), zlit(e[1]), zlit(e[2]), zlit(e[3]), it.text(bytes.fromhex(e[4]))) for e in r['edits'])
+        rows.append('Case16 (%s) (%s) %s' % (it.text(b), it.text(a), es))
+    v = ['From Regal Require Import Check.C16Check.', 'Open Scope Z_scope.'] + it.defs
+    v.append('Definition calls : list c16_case := [\n%s].' % ';\n'.join(rows))
+    v.append('Definition Q1 := Eval vm_compute in seq_disagreements 0 calls.')
+    v.append('Print Q1.')
+    rc, out = vlib.coq_eval(ctx, 'Cases_C16_seq_%s' % tag, '\n'.join(v))
+    if rc != 0:
+        raise RuntimeError('sequence evaluation failed:\n' + out[-2000:])
+    q = vlib.parse_nat_list(out, 'Q1')
+    return sorted(set((q or []) + pan))
 
 
 def coq_shards(ctx, items, tag='main', nshards=NSHARDS):
@@ -516,11 +745,11 @@ def gen_srv_cases(ctx):
     cases = []
     files = [f for f in policy_files() if os.path.getsize(f) < 2500]
 
-    def add(profile, d, text, op='format', test=False, disk=None, open_first=None, never_open=False, command='', char='', nth=0):
+    def add(profile, d, text, op='format', test=False, disk=None, open_first=None, never_open=False, command='', char='', nth=0, then=None):
         i = len(cases)
         c = {'id': i, 'profile': profile, 'dir': d, 'file': 'p%d%s.rego' % (i, '_test' if test else ''),
              'disk': 'missing' if disk is None else 'content', 'disk_hex': '' if disk is None else shx(disk),
-             'open': None, 'change': None, 'op': op, 'command': command, 'char': char, 'nth': nth}
+             'open': None, 'change': None, 'op': op, 'command': command, 'char': char, 'nth': nth, 'then': then or []}
         if op != 'create' and not never_open:
             if open_first is not None:
                 c['open'], c['change'] = shx(open_first), shx(text)
@@ -580,6 +809,46 @@ def gen_srv_cases(ctx):
             t = t + ('' if t.endswith('\n') else nl) + nl + rng.choice(bait[ch]) + (nl if rng.below(3) else '')
         add('default', rng.choice(['main', 'pol/sub', '']), t, op='cmd', command=cmd, char=ch, nth=rng.below(3),
             open_first=(random_doc_srv(rng, files) if rng.below(5) == 0 else None), never_open=(rng.below(20) == 0))
+    # consecutive requests on ONE document of one server (seed round 3): the editor applies the edits of the first answer, tells the
+    # server (didChange) and asks again; the second edit lies ABOVE the first one (and, in other cases, below it / at the same
+    # line), so that nothing one diff leaves behind may show in the next
+    def step(op, command='', char='', nth=0):
+        return {'op': op, 'command': command, 'char': char, 'nth': nth}
+    UAO, NWC = 'regal.fix.use-assignment-operator', 'regal.fix.no-whitespace-comment'
+    for k in range(10 if quick else 80):
+        nl = rng.choice(['\n', '\n', '\r\n'])
+        n_b = 2 + rng.below(5)
+        pad = lambda: [rng.choice(['', '# c', 'import rego.v1', 'z := 0'])] * rng.below(3)
+        ch, cmd, mk = rng.choice([('=', UAO, lambda i: 'x%d = %d' % (i, i)), ('#', NWC, lambda i: '#note %d' % i)])
+        lines = ['package main', '']
+        for i in range(n_b):
+            lines += pad() + [mk(i)]
+        text = nl.join(lines) + (nl if rng.below(4) else '')
+        order = list(range(n_b))
+        v = rng.below(4)
+        if v == 0:
+            seq = [n_b - 1, 0]                    # bottom first, then the top one (still the first occurrence)
+        elif v == 1:
+            seq = [n_b - 1, n_b - 2, 0][:n_b]
+        elif v == 2:
+            seq = [0, 0]                          # top first; the next occurrence is then the first one left ...
+        else:
+            seq = [rng.below(n_b), 0]
+        if ch == '=':
+            # a fixed `=` becomes `:=`, which still contains the byte: occurrences keep their index
+            pass
+        add('default', rng.choice(['main', 'pol/sub', '']), text, op='cmd', command=cmd, char=ch, nth=seq[0],
+            then=[step('cmd', cmd, ch, n) for n in seq[1:]] + ([step('format')] if rng.below(3) == 0 else []))
+    for k in range(8 if quick else 60):
+        # a quick fix near the end, then formatting (its edits lie above), and the other way round
+        body = ['x   :=   1', '', '', 'allow  if  input.y', '# c'] + ['r%d := %d' % (i, i) for i in range(rng.below(6))]
+        bait = rng.choice([('=', UAO, 'y = 2'), ('#', NWC, '#last')])
+        text = '\n'.join([rng.choice(['package  main', 'package main']), ''] + body + ['', bait[2]]) + '\n'
+        if rng.below(2):
+            add('default', rng.choice(['main', 'pol/sub']), text, op='cmd', command=bait[1], char=bait[0], nth=0, then=[step('format'), step('format')])
+        else:
+            text = '\n'.join(['package main', '', bait[2], '', ''] + body) + '\n'
+            add(rng.choice(['default', 'regov1']), rng.choice(['main', 'pol/sub']), text, op='format', then=[step('cmd', bait[1], bait[0], 0), step('format')])
     # new files (template worker -> workspace/applyEdit)
     for _ in range(24 if quick else 200):
         d = rng.choice(SRV_DIRS + ['main', 'pol/sub'])
@@ -616,8 +885,29 @@ def srv_intended(c, o):
     return client if t is None else t
 
 
+def srv_steps(c, o):
+    """a case and the requests that follow it on the same document, as (case-like dict, output) pairs"""
+    out = [(c, o)]
+    for st, o2 in zip(c.get('then') or [], o.get('then') or []):
+        out.append((dict(c, op=st['op'], command=st['command'], char=st['char'], nth=st['nth'], then=[]), o2))
+    return out
+
+
+def srv_bad_all(c, o):
+    """srv_bad on the request and on every following request of the case"""
+    for k, (c2, o2) in enumerate(srv_steps(c, o)):
+        why = srv_bad(c2, o2)
+        if why:
+            return why if k == 0 else 'request %d on the same document (%s%s): %s' % (k + 1, c2['op'], ' ' + c2['command'] if c2['command'] else '', why)
+    if len(o.get('then') or []) != len(c.get('then') or []):
+        return 'only %d of the %d following requests were answered' % (len(o.get('then') or []), len(c.get('then') or []))
+    return None
+
+
 def srv_bad(c, o):
     """the property on the server's own answers; returns a reason or None"""
+    if o.get('panic'):
+        return 'the server panicked while handling the request (a real server ends here): ' + o['panic'][:300]
     client = unhx(o['client'])
     before, after = unhx(o['before']), unhx(o['after'])
     if o['has_client'] and c['op'] != 'create' and (not o['before_has'] or before != client):
@@ -649,6 +939,15 @@ def srv_bad(c, o):
     return None
 
 
+def srv_flat(srv_cases, sres):
+    """every request of every case (panicked requests have no answer to compare: left to the predicate)"""
+    return [(c2, o2) for c in srv_cases for c2, o2 in srv_steps(c, sres[c['id']]) if not o2.get('panic')]
+
+
+def srv_flat_parents(srv_cases, sres):
+    return [c for c in srv_cases for c2, o2 in srv_steps(c, sres[c['id']]) if not o2.get('panic')]
+
+
 def flow_text(srv_cases, sres):
     it = Interner()
 
@@ -658,8 +957,7 @@ def flow_text(srv_cases, sres):
     def cb(x):
         return 'true' if x else 'false'
     rows = []
-    for c in srv_cases:
-        o = sres[c['id']]
+    for c, o in srv_flat(srv_cases, sres):
         disk = None if c['disk'] == 'missing' else unhx(c['disk_hex'])
         template = unhx(o['template']) if o['template_ok'] else None
         ora = {'new': '(ONew (%s))' % it.text(unhx(o['ora_out'])), 'none': 'ONone', 'err': 'OErr'}[o['ora_class']]
@@ -714,6 +1012,9 @@ def coq_flow_finish(proc):
 def srv_shrink_candidates(c):
     """smaller variants of a server-level case (same operation, same profile)"""
     out = []
+    th = c.get('then') or []
+    for i in range(len(th)):
+        out.append(dict(c, then=th[:i] + th[i + 1:]))
     key = 'change' if c.get('change') is not None else 'open'
     if c['op'] != 'create' and c.get(key) is not None:
         lines = split_keep(bytes.fromhex(c[key]))
@@ -732,7 +1033,7 @@ def srv_shrink_candidates(c):
 
 
 def srv_size(c):
-    return len(c.get('open') or '') + len(c.get('change') or '') + len(c.get('disk_hex') or '') + len(c['file'])
+    return len(c.get('open') or '') + len(c.get('change') or '') + len(c.get('disk_hex') or '') + len(c['file']) + 40 * len(c.get('then') or [])
 
 
 def srv_minimise(ctx, c, budget_s=90):
@@ -745,7 +1046,7 @@ def srv_minimise(ctx, c, budget_s=90):
         if not cands:
             break
         _, rr = run_go(ctx, [], tag='smin%d' % rnd, srv_cases=cands)
-        better = [x for x in cands if srv_bad(x, rr[x['id']])]
+        better = [x for x in cands if x['id'] in rr and not rr[x['id']].get('fatal') and srv_bad_all(x, rr[x['id']])]
         if not better:
             break
         cur = min(better, key=lambda x: (srv_size(x), json.dumps(x, sort_keys=True)))
@@ -755,15 +1056,30 @@ def srv_minimise(ctx, c, budget_s=90):
 def srv_readable(c, o):
     def txt(h):
         return None if h is None else bytes.fromhex(h).decode('utf-8', 'replace')
+    steps = srv_steps(c, o)
+    if len(steps) > 1:
+        first = srv_readable(dict(c, then=[]), dict(o, then=[]))
+        first['following_requests_on_the_same_document'] = [srv_readable(c2, o2) for c2, o2 in steps[1:]]
+        return first
     return {'operation': c['op'] + (' ' + c['command'] if c['command'] else ''), 'profile': c['profile'],
             'document': '<workspace>/%s' % os.path.join(c['dir'], c['file']),
             'file_on_disk': None if c['disk'] == 'missing' else txt(c['disk_hex']),
             'didOpen_text': txt(c.get('open')), 'didChange_text': txt(c.get('change')),
-            'client_text': txt(o['client']), 'answer': o['class'], 'error': o.get('err'), 'edits': o['edits'],
+            'client_text': txt(o['client']), 'answer': o['class'], 'error': o.get('err'), 'server_panic': o.get('panic'), 'edits': o['edits'],
             'client_text_after_applying': txt(o['applied']), 'server_copy_after': txt(o['after']) if o['after_has'] else None,
             'intended_text': srv_intended(c, o).decode('utf-8', 'replace'),
             'oracle': {'formatter_or_fix': o['ora_class'], 'output': txt(o['ora_out']), 'template': txt(o['template']) if o['template_ok'] else None,
                        'template_error': o.get('template_err'), 'in_workspace_root': o['in_root'], 'ignored_file': o['ignored']}}
+
+
+def second_above(srv_cases, sres):
+    n = 0
+    for c in srv_cases:
+        st = srv_steps(c, sres[c['id']])
+        for (_, a), (_, b) in zip(st, st[1:]):
+            if a['class'] == 'edits' and a['edits'] and b['class'] == 'edits' and b['edits'] and b['edits'][0][0] < a['edits'][0][0]:
+                n += 1
+    return n
 
 
 def srv_evidence(srv_cases, sres, srv_pred_bad, f1, f2, f3):
@@ -791,7 +1107,11 @@ def srv_evidence(srv_cases, sres, srv_pred_bad, f1, f2, f3):
             sample = {'op': c['op'], 'profile': c['profile'], 'client_text': unhx(o['client']).decode('utf-8', 'replace')[:120],
                       'edits': o['edits'][:3]}
             break
-    return {'cases': len(srv_cases), 'distinct_answers_with_edits': len(with_edits), 'by_operation': by_op,
+    follow = [(c2, o2) for c in srv_cases for c2, o2 in srv_steps(c, sres[c['id']])[1:]]
+    return {'cases': len(srv_cases), 'following_requests_on_the_same_document': len(follow),
+            'following_requests_answered_with_edits': sum(1 for _, o2 in follow if o2['class'] == 'edits' and o2['edits']),
+            'following_requests_whose_first_edit_lies_above_the_previous_one': second_above(srv_cases, sres),
+            'distinct_answers_with_edits': len(with_edits), 'by_operation': by_op,
             'by_operation_and_answer': by_class, 'by_profile': by_profile, 'blank_non_empty_documents': blank,
             'answers_where_the_server_stored_a_new_text': templated, 'predicate_failures': len(srv_pred_bad),
             'mismatch_flow_model_vs_server': len(f1), 'spec_rejects_server_edits': len(f2), 'spec_rejects_flow_model': len(f3),
@@ -805,17 +1125,30 @@ def run(ctx):
         rp = json.load(open(ctx.replay))
         c = rp.get('case')
         cases, srv_cases = [], []
+        replay_seq = replay_srv_seq = None
         if c and 'srv_case' in c:
             srv_cases = [dict(c['srv_case'], id=0)]
+        elif c and 'srv_seq' in c:
+            replay_srv_seq = [dict(x, id=k) for k, x in enumerate(c['srv_seq'])]
+            srv_cases = replay_srv_seq
+        elif c and 'seq' in c:
+            replay_seq = [(bytes.fromhex(x['before']), bytes.fromhex(x['after'])) for x in c['seq']]
         elif c:
             cases = [{'id': 0, 'kind': 'replay', 'mode': c.get('mode', 'pair'), 'before': c['before'], 'after': c['after']}]
+        plan = None
     else:
         cases = gen_cases(ctx)
         srv_cases = gen_srv_cases(ctx)
+        plan = make_plan(ctx, cases)
+        replay_seq = None
 
     t_go = time.time()
-    res, sres = run_go(ctx, cases, srv_cases=srv_cases)
+    res, sres, died = run_go(ctx, cases, srv_cases=srv_cases, plan=plan, want_died=True)
     t_go = time.time() - t_go
+    # cases whose server process died have no answer: they are reported below and leave the evaluation; so do cases at which the
+    # harness lost its server (time-out, transport): the check stops for them unless a concrete violation explains it
+    srv_fatal = [c for c in srv_cases if c['id'] in sres and sres[c['id']].get('fatal')]
+    srv_cases = [c for c in srv_cases if c['id'] in sres and not sres[c['id']].get('fatal')]
 
     # resolved pairs (mode fmt gets its `after` from the implementation's formatter)
     live = []
@@ -837,7 +1170,7 @@ def run(ctx):
     pred_bad = [(c, why) for c, why in pred_bad if why]
 
     # ---- correspondence + specification inside Coq (cases where the implementation panicked have no edit list)
-    coq_cases = [c for c in live if not res[c['id']].get('panic') and c['kind'] != 'large']
+    coq_cases = [c for c in live if not res[c['id']].get('panic') and not res[c['id']].get('crash') and c['kind'] != 'large']
     items = [(bytes.fromhex(c['before']), bytes.fromhex(c['after']), res[c['id']]['edits']) for c in coq_cases]
     t_coq = time.time()
     flow_proc = coq_flow_start(ctx, srv_cases, sres)
@@ -845,9 +1178,11 @@ def run(ctx):
     f1, f2, f3 = coq_flow_finish(flow_proc)
     t_coq = time.time() - t_coq
 
-    # ---- server level: predicate on the answers of the real server
-    srv_pred_bad = [(c, srv_bad(c, sres[c['id']])) for c in srv_cases]
+    # ---- server level: predicate on the answers of the real server (every request of every case)
+    srv_pred_bad = [(c, srv_bad_all(c, sres[c['id']])) for c in srv_cases]
     srv_pred_bad = [(c, why) for c, why in srv_pred_bad if why]
+    flat_parents = srv_flat_parents(srv_cases, sres)
+    f1, f2, f3 = ([flat_parents[i] for i in f] for f in (f1, f2, f3))      # indices of requests -> their cases
 
     def batch_pred(tag):
         n = [0]
@@ -878,19 +1213,168 @@ def run(ctx):
         }, no_input=False, signature={'kind': kind, 'key': key})
 
     # 1. failures of the Go-side predicate (smallest first, a few distinct ones)
-    for c, why in sorted(pred_bad, key=lambda cw: len(cw[0]['before']) + len(cw[0]['after']))[:3]:
+    # (a pair that fails somewhere in the forward order but is right as the first call of a fresh process is not a failing PAIR: it
+    # goes to the history report below, with the calls that preceded it)
+    forward_history = []
+    n_alone = 0
+    for c, why in sorted(pred_bad, key=lambda cw: len(cw[0]['before']) + len(cw[0]['after'])):
+        if len(ctx.violations) >= 3 or n_alone >= 6:
+            break
+        if not ctx.replay and not res[c['id']].get('crash'):
+            n_alone += 1
+            alone = run_seqs(ctx, [[(bytes.fromhex(c['before']), bytes.fromhex(c['after']))]], 'alone%d' % n_alone)[0]
+            if alone is not None and go_bad(alone[-1]) is None:
+                forward_history.append((c, {'run': 'forward', 'pos': c['id'], 'prev': [k for k in (c['id'] - 1, c['id'] - 2, c['id'] - 3) if k >= 0],
+                                            'rec': res[c['id']]}))
+                continue
         report_input(c, why, 'lsp-apply')
+
+    # 1a. HISTORY DEPENDENCE: an evaluation of a pair, somewhere in one of the call orders, gave another result than the first
+    # evaluation of the same pair (which is the one compared with the model).  The replay is the shortest sequence of calls, ending
+    # in that pair, whose last result is wrong / differs from what the pair gets as the first call of a process.
+    by_id = {c['id']: c for c in cases}
+    devs = list(forward_history)
+    for c in live:
+        for d in res[c['id']].get('dev') or []:
+            devs.append((c, d))
+    n_dev_total = sum(res[c['id']].get('ndev', 0) for c in live)
+    n_evals_total = sum(res[c['id']].get('evals', 1) for c in live)
+
+    def seq_size(sq):
+        return sum(len(b) + len(a) for b, a in sq)
+
+    def report_history(c, d):
+        target = (bytes.fromhex(c['before']), bytes.fromhex(c['after']))
+        # the calls before it in the same goroutine, nearest first: from the plan when the order was sequential (what a call finds may
+        # have been left by any earlier call, not just the last one), else the three the harness recorded
+        hist = list(d['prev'])
+        if d['run'] == 'forward':
+            hist = list(range(d['pos'] - 1, max(-1, d['pos'] - 201), -1))
+        else:
+            for r in plan['runs']:
+                if r['name'] == d['run'] and r['goroutines'] == 1 and d['pos'] < len(r['order']) and r['order'][d['pos']] == c['id']:
+                    hist = r['order'][max(0, d['pos'] - 200):d['pos']][::-1]
+        prev = [entry_pair(plan, by_id, e) for e in hist if e < 0 or e in by_id]
+        depths = sorted({k for k in (1, 2, 3, 5, 8, 16, 32, 64, 128, 200) if k <= len(prev)} | {len(prev)})
+        cand = [[target]] + [list(reversed(prev[:k])) + [target] for k in depths if k > 0]
+        rr = run_seqs(ctx, cand, 'hist%d' % len(ctx.violations))
+        alone = rr[0]
+        chosen = None
+        for sq, recs in zip(cand[1:], rr[1:]):
+            why = seq_deviates(recs, alone)
+            if why:
+                chosen = (sq, why)
+                break
+        if chosen is None:
+            # not reproduced by the calls of its own goroutine alone (e.g. the concurrent run): report what was observed
+            vlib.violation(ctx, {'kind': 'history-dependence', 'reproduced_in_isolation': False,
+                                 'what': 'in call order %r (position %d) ComputeEdits gave another result for this pair than in the forward order: %s'
+                                         % (d['run'], d['pos'], go_bad(d['rec']) or 'other edit list'),
+                                 'case': {'seq': [{'before': hx(b), 'after': hx(a)} for b, a in cand[-1]]},
+                                 'observed': d['rec'], 'first_evaluation': {k: res[c['id']].get(k) for k in ('edits', 'panic', 'applied')}},
+                           no_input=False, signature={'kind': 'history-dependence', 'key': json.dumps([c['before'], c['after']])})
+            return
+        sq, why = chosen
+        # fewer calls first: drop chunks / single calls of the prefix as long as the last call still deviates
+        t_end = time.time() + 25
+        chunk = max(1, (len(sq) - 1) // 2)
+        while len(sq) > 2 and time.time() < t_end:
+            cands = [sq[:k] + sq[k + chunk:-1] + [sq[-1]] for k in range(0, len(sq) - 1, chunk)]
+            cands = [x for x in cands if len(x) < len(sq)][:64]
+            rr2 = run_seqs(ctx, [[sq[-1]]] + cands, 'hdrop')
+            better = [x for x, rs in zip(cands, rr2[1:]) if seq_deviates(rs, rr2[0])]
+            if better:
+                sq = min(better, key=lambda x: (len(x), seq_size(x)))
+                chunk = min(chunk, max(1, (len(sq) - 1) // 2))
+            elif chunk > 1:
+                chunk //= 2
+            else:
+                break
+        # shrink the pairs of the sequence line-wise (candidates of one round share a process, pools emptied between sequences)
+        t_end = time.time() + 20
+        for rnd in range(12):
+            if time.time() > t_end:
+                break
+            cands = []
+            for k, (b, a) in enumerate(sq):
+                lb, la = split_keep(b), split_keep(a)
+                for i in range(len(lb)):
+                    cands.append(sq[:k] + [(b''.join(lb[:i] + lb[i + 1:]), a)] + sq[k + 1:])
+                for i in range(len(la)):
+                    cands.append(sq[:k] + [(b, b''.join(la[:i] + la[i + 1:]))] + sq[k + 1:])
+                for i in range(len(lb)):
+                    if lb[i] in la:
+                        j = la.index(lb[i])
+                        cands.append(sq[:k] + [(b''.join(lb[:i] + lb[i + 1:]), b''.join(la[:j] + la[j + 1:]))] + sq[k + 1:])
+            if len(sq) > 2:
+                cands += [sq[:k] + sq[k + 1:] for k in range(len(sq) - 1)]
+            cands = cands[:300]
+            if not cands:
+                break
+            alone_c = run_seqs(ctx, [[x[-1]] for x in cands] + cands, 'hmin%d' % rnd)
+            n = len(cands)
+            better = [x for x, ra, rs in zip(cands, alone_c[:n], alone_c[n:]) if go_bad((ra or [{}])[-1]) is None and seq_deviates(rs, ra)]
+            if not better:
+                break
+            sq = min(better, key=lambda x: (seq_size(x), repr(x)))
+        # confirmation, each in a process of its own
+        alone = run_seqs(ctx, [[sq[-1]]], 'hconf_a')[0]
+        recs = run_seqs(ctx, [sq], 'hconf_s')[0]
+        why = seq_deviates(recs, alone) or why
+        key = json.dumps([[hx(b), hx(a)] for b, a in sq])
+        if key in reported:
+            return
+        reported.add(key)
+        vlib.violation(ctx, {
+            'kind': 'history-dependence',
+            'what': 'ComputeEdits is not a function of (before, after): as call number %d of this sequence the last pair gets: %s' % (len(sq), why),
+            'case': {'seq': [{'before': hx(b), 'after': hx(a)} for b, a in sq]},
+            'sequence_text': [{'before': b.decode('utf-8', 'replace'), 'after': a.decode('utf-8', 'replace')} for b, a in sq],
+            'last_pair_in_the_sequence': None if recs is None else {k: recs[-1].get(k) for k in ('edits', 'panic', 'applied', 'result')},
+            'last_pair_as_first_call_of_a_process': None if alone is None else {k: alone[-1].get(k) for k in ('edits', 'panic', 'applied')},
+            'calls_of_the_sequence_whose_result_is_not_the_model_s (Check.C16Check.seq_disagreements)':
+                None if recs is None or seq_size(sq) > 20000 else coq_seq_disagreements(ctx, sq, recs, 'h%d' % len(ctx.violations)),
+            'found_in_call_order': d['run'], 'original_pair': {'before': c['before'], 'after': c['after']},
+            'replay_cmd': 'tools/check C16 --replay <this file>',
+        }, no_input=False, signature={'kind': 'history-dependence', 'key': key})
+
+    if replay_seq is not None:
+        alone = run_seqs(ctx, [[replay_seq[-1]]], 'rp_a')[0]
+        why = None
+        for attempt in range(3):
+            recs = run_seqs(ctx, [replay_seq], 'rp_s%d' % attempt)[0]
+            why = seq_deviates(recs, alone)
+            if why:
+                break
+        if why:
+            vlib.violation(ctx, {'kind': 'history-dependence', 'what': why, 'case': {'seq': [{'before': hx(b), 'after': hx(a)} for b, a in replay_seq]},
+                                 'last_pair_in_the_sequence': None if recs is None else {k: recs[-1].get(k) for k in ('edits', 'panic', 'applied', 'result')},
+                                 'last_pair_as_first_call_of_a_process': None if alone is None else {k: alone[-1].get(k) for k in ('edits', 'panic', 'applied')}},
+                           no_input=False, signature={'kind': 'history-dependence', 'key': json.dumps([[hx(b), hx(a)] for b, a in replay_seq])})
+    for c, d in sorted(devs, key=lambda cd: (len(cd[0]['before']) + len(cd[0]['after']), cd[0]['id']))[:2]:
         if len(ctx.violations) >= 3:
             break
+        report_history(c, d)
+
+    # 1a'. a server process died (a fatal error that no recover can stop, or a time-out): the replay is the sequence of cases that
+    # server had handled, ending in the one in flight
+    for dd in died[:2]:
+        sq = [{k: v for k, v in x.items() if k != 'id'} for x in dd['sequence']]
+        vlib.violation(ctx, {'kind': 'server-died', 'what': 'the language server process ended while handling the last case of this sequence',
+                             'case': {'srv_seq': sq[-12:]}, 'cases_before_it_on_this_server': len(sq) - 1, 'log_tail': dd['log']},
+                       no_input=False, signature={'kind': 'server-died', 'key': json.dumps(sq[-1], sort_keys=True)})
 
     # 1b. server level: the edits the server sent do not turn the client's text into the intended text
     def report_srv(c, why, kind):
         small = srv_minimise(ctx, c) if not ctx.replay else c
         _, rr = run_go(ctx, [], tag='srep', srv_cases=[dict(small, id=0)])
         o = rr[0]
-        why2 = srv_bad(small, o) or why
+        if o.get('fatal'):          # the re-run lost its server: keep the observation of the main run
+            small, o = c, sres[c['id']]
+        why2 = srv_bad_all(small, o) or why
         sc = {k: v for k, v in small.items() if k != 'id'}
-        key = json.dumps([sc['op'], sc['command'], sc['profile'], sc['dir'] != '', sc.get('change') or sc.get('open') or sc['disk_hex']])
+        key = json.dumps([sc['op'], sc['command'], sc['profile'], sc['dir'] != '', sc.get('change') or sc.get('open') or sc['disk_hex']] +
+                         ([[st['op'], st['command'], st['nth']] for st in sc['then']] if sc.get('then') else []))
         if key in reported:
             return
         reported.add(key)
@@ -905,8 +1389,7 @@ def run(ctx):
 
     # 1c. the Coq specification (lsp_apply on the real edits vs the oracles) rejects an answer the Go side accepted
     srv_bad_ids = {c['id'] for c, _ in srv_pred_bad}
-    for i in f2:
-        c = srv_cases[i]
+    for c in f2:
         if c['id'] in srv_bad_ids or len(ctx.violations) >= 3:
             continue
         report_srv(c, 'Check.C16Check.flow_meets_spec: lsp_apply of the edits the server sent, on the client\'s text, does not give the '
@@ -961,18 +1444,18 @@ def run(ctx):
     # 3b. the flow model no longer describes server.go (answer class / edit list / stored text differ) and no input
     # violating the property was found: look at the neighbours (line deletions, other directory) first
     if (f1 or f3) and not ctx.violations:
-        idxs = sorted(f1 or f3, key=lambda i: srv_size(srv_cases[i]))
-        c = srv_cases[idxs[0]]
+        fcs = sorted(f1 or f3, key=srv_size)
+        c = fcs[0]
         neigh = []
-        for i in idxs[:8]:
-            neigh += srv_shrink_candidates(srv_cases[i])
-            neigh += [dict(srv_cases[i], dir=d) for d in ('', 'main') if d != srv_cases[i]['dir']]
+        for fc in fcs[:8]:
+            neigh += srv_shrink_candidates(fc)
+            neigh += [dict(fc, dir=d) for d in ('', 'main') if d != fc['dir']]
         neigh = [dict(x, id=k) for k, x in enumerate(neigh[:150])]
         found = None
         if neigh and not ctx.replay:
             _, rr = run_go(ctx, [], tag='snb', srv_cases=neigh)
             for x in neigh:
-                why = srv_bad(x, rr[x['id']])
+                why = srv_bad_all(x, rr[x['id']]) if x['id'] in rr and not rr[x['id']].get('fatal') else None
                 if why:
                     found = (x, why)
                     break
@@ -988,6 +1471,10 @@ def run(ctx):
                                              'proved about Model/FormatFlow.v, which no longer describes internal/lsp/server.go',
                                      case={'srv_case': {k: v for k, v in c.items() if k != 'id'}},
                                      n_mismatches=len(f1), n_model_spec_failures=len(f3)), no_input=True)
+
+    if srv_fatal and not ctx.violations:
+        c = srv_fatal[0]
+        raise RuntimeError('c16 server harness stopped at case %d (%s): %s' % (c['id'], json.dumps(c), sres[c['id']]['fatal']))
 
     proof_gate(ctx, 'compute_edits_sound / compute_edits_total / formatting_reproduces_intended')
 
@@ -1044,6 +1531,15 @@ def run(ctx):
         'positions_relying_on_end_of_document_clamp': clamp_needed,
         'mismatch_model_vs_implementation': len(r1), 'spec_rejects_real_edits': len(r2), 'spec_rejects_model_edits': len(r3),
         'predicate_failures_go_side': len(pred_bad),
+        'history_independence': {
+            'call_orders': ['forward'] + [r['name'] + (' (%d goroutines)' % r['goroutines'] if r['goroutines'] > 1 else '') for r in (plan or {'runs': []})['runs']],
+            'polluting_pairs': len((plan or {'polluters': []})['polluters']),
+            'evaluations_of_ComputeEdits': n_evals_total,
+            'min_evaluations_per_case': min([res[c['id']].get('evals', 1) for c in live if c['kind'] != 'large'] or [0]),
+            'evaluations_that_differ_from_the_first_one': n_dev_total,
+            'rule': 'every evaluation is compared (edit list, panic, result of applying) with the first evaluation of the same pair, which is '
+                    'the one compared with the model in Coq'},
+        'server_processes_died': len(died),
         'server_level': srv_evidence(srv_cases, sres, srv_pred_bad, f1, f2, f3),
         'go_seconds': round(t_go, 1), 'coq_seconds': round(t_coq, 1), 'selftest_perturbed_cases_flagged': selftest_ok,
         'samples': samples,
